@@ -41,6 +41,9 @@ def gen_atom(rng, rows, depth):
             txt += ":" + end.strftime("%y%m%d")
         if rng.random() < 0.2:
             txt = head + rng.choice(["-400d", "-2y", "-18m:0d", "-5y:-1y", "0d"])
+        elif rng.random() < 0.12:
+            # two-digit years up to 99 mean 2000-2099: ranges that end late in the century contain today's notes
+            txt = head + rng.choice(["000101:991231", "230101:690101", "240101:750615", "200101:990101", "681231:690101"])
         return txt
     if r < 0.58:
         if row["props"] and rng.random() < 0.85:
